@@ -53,6 +53,9 @@ POPS = [None, ['A'], ['pop one', 'B'], ['x', 'y', 'z']]
 def table_case(draw, log=None, kmin=1):
     k = draw(st.integers(kmin, 6))
     xs = draw(nodes(k))
+    if draw(st.integers(0, 3)) == 0:
+        # the grid spacing measured in whole units (extrap_x_l is documented as a list of ints; a result's extrap_x may be one too)
+        xs = draw(st.permutations(draw(st.lists(st.integers(1, 60), min_size=k, max_size=k, unique=True))))
     kind = draw(st.sampled_from(['array', 'spectrum']))
     ndim = draw(st.integers(1, 3 if kind == 'spectrum' else 2))
     shape = [draw(st.integers(2, 5)) for _ in range(ndim)]
@@ -157,7 +160,8 @@ def r1(case, rec):
     ys_arrays = [np.array(y, dtype=float).reshape(case['shape']) for y in case['ys']]
     model, pts_l, pop_ids, calls = build_model(case, ys_arrays)
     rec.case(case, nontrivial(case), labels=['k=%d' % k, case['mode'], case['kind'], case['passing'],
-                                             'explicit_x' if case['explicit_x'] else 'attr_x'])
+                                             'explicit_x' if case['explicit_x'] else 'attr_x'] +
+             (['integer x'] if all(isinstance(x, int) for x in case['xs']) else []))
     res = call_wrapped(case, model, pts_l)
     require(sorted(calls) == sorted(pts_l), 'model evaluated at %r, expected each of %r once' % (calls, pts_l))
     check_meta(case, res, pop_ids, rec)
